@@ -40,7 +40,7 @@ pub proof fn lemma_split_inside_separator(a: Seq<u8>, b: Seq<u8>)
 //@ ensures#buffer_untouched [C17]
       final(buf).data@ == old(buf).data@
 //@ ensures#first_separator_or_none [C17]
-      match r { Some(i) => first_sep(old(buf).data@, i as int), None => no_sep(old(buf).data@) }
+      match r { Some(i) => first_sep(old(buf).data@, i as int) && i as int + 2 <= old(buf).data@.len(), None => no_sep(old(buf).data@) }
 //@ closure 0
 //@ cparams b: (&u8, &u8)
 //@ creturns r: bool
